@@ -82,6 +82,8 @@ class NP:
 
     @staticmethod
     def ones_like(x, dtype=None):
+        if dtype is bool:
+            return B(True)
         if isinstance(x, _np.ndarray):
             return NP.ones(x.shape)
         return Q(1)
